@@ -19,9 +19,9 @@ PID = "C35"
 LEVEL = "proof"
 LEAN = ["SaVerif.Props.C35"]
 META = {
-    "text": "Lean: the five InstanceState flag formulas (regenerated from orm/state.py on every run) are mutually exclusive and exhaustive for every valuation; over the transcribed session machine (Model/Sess.lean: add/delete/flush/commit/rollback/savepoints/expunge/close/merge/get/make_transient*/pk change, failed flushes included) and for ALL operation histories: session.new is exactly the pending instances, identity-map entries are keyed consistently, and the recorded lifecycle events replay to the actual state of every instance on guarded histories (see note for the guards and the counterexamples). The model is tied to the code by a differential run after every operation of generated histories; the documented state machine itself is re-checked on the real Session by an independent oracle.",
-    "note": "Partial: events_track_state_partial assumes the guards listed in Props/C35.lean; each excluded situation has a *_counterexample theorem that is replayed on the real code as a known finding (known_findings.d/C35.json). Modelled-not-verified: SQLite (a set of primary keys with snapshot/rollback), Python dict/set order (set-order dependent outcomes make the model abstain), weak references/GC (the harness holds every instance). One mapper, one integer primary key column, one Session.",
-    "technique": "Lean 4 invariant proofs by induction over operation histories of a transcribed session state machine + decide over a regenerated flag table + per-operation differential correspondence with the real Session on SQLite",
+    "text": "Lean: (1) the five InstanceState flag formulas, regenerated from orm/state.py on every run, are mutually exclusive and exhaustive for every valuation (exactly_one_state; has_identity/was_deleted/_attached characterised); (2) for EVERY state of the transcribed session machine (Model/Sess.lean) the primitives that move an instance — _after_attach, _detach_states, _remove_newly_deleted — called on an instance in their documented source state perform exactly the documented transition and log exactly its event (afterAttach_spec, detachOne_spec, removeNewlyDeletedOne_spec); (3) for ALL operation histories every member of session.new is a pending instance (new_members_are_pending / new_members_flag_pending: induction over the history, ~110 preservation lemmas in Lemmas/SessNP.lean, failed flushes included); (4) the history-level statement 'the logged events replay to the actual state of every instance' is FALSE for the code as it is: eleven *_counterexample theorems (decide on the model), each replayed on the real Session as a known finding. The model (add/delete/flush incl. failures/commit/rollback/savepoints/expunge/close/merge/get/query/refresh/make_transient*/pk change) is tied to the code by a differential run after every operation of generated histories; the documented state machine itself is re-checked on the real Session by an independent oracle.",
+    "note": "No history-level positive theorem about *events* is proved (the per-primitive ones hold for all states; history-level invariants proved: session.new ⊆ pending here, identity-map key uniqueness in C34): the history-level claim about events rests on the correspondence + oracle. 16 known findings (known_findings.d/C35.json) are genuine deviations of the pinned source from the documented lifecycle; an oracle failure is suppressed only when its key is listed AND the transcribed model reproduces the real behaviour of the whole case step for step. Modelled-not-verified: SQLite (a set of primary keys with snapshot/rollback), Python dict/set order (set-order dependent outcomes make the model abstain), weak references/GC (the harness holds every instance). One mapper, one integer primary key column, one Session.",
+    "technique": "decide over a regenerated flag table + Lean 4 theorems about the transcribed transition primitives (all states) + counterexample theorems + per-operation differential correspondence with the real Session on SQLite + independent state-machine oracle",
     "design_ref": "DESIGN.md §3 C30–C33, C35 (M-ORM)",
 }
 
